@@ -226,10 +226,16 @@ def num(v):
 
 
 def py_eq_key(a, b):
+    """would Python treat the two as one dict key?  (False == 0 == 0.0, and so for tuples of such)"""
     na, nb = num(a), num(b)
     if na is not None or nb is not None:
         return na == nb
-    return a == b
+    if a == b:
+        return True
+    try:
+        return bool(py_val(a) == py_val(b))
+    except Exception:  # noqa: BLE001
+        return False
 
 
 # ----------------------------------------------------------------------------------------------------------------------
